@@ -213,7 +213,50 @@ def r19_5(chk, P):
                f'(controlling tests: {[F.s(c)[:40] + ("" if pol else " [false]") for c, pol in conds]})')
 
 
+def r19_6(chk, P):
+    chk.rule('R19.6', 'vorbis_synthesis_lapout may be called again on the state it left (a lapped seek that fails before the '
+             'decoder is restarted, two lapped seeks at end of stream, ov_crosslap twice): every update in it that moves the '
+             'returned window (a += / -= on pcm_returned or pcm_current) is controlled by a test that the function has made '
+             'false by the time it returns (K4: the controlling condition, refined with the values at the function\'s exits, is '
+             'infeasible), so a repeated call finds nothing to move.  An update guarded only by block-size flags is applied '
+             'again on every call: the count returned goes negative and the pointer walks off the pcm block')
+    import k4dec
+    F = P.need('vorbis_synthesis_lapout')
+    D = k4dec.decode_driver(P)
+    moves = []
+    for e in F.pos:
+        nd = F.ex[e]
+        if nd['k'] == 'assign' and nd['op'] in ('+=', '-='):
+            l = F.ex[F.strip_casts(nd['c'][0])]
+            if l['k'] == 'member' and l.get('record') == 'vorbis_dsp_state' and l.get('field') in ('pcm_returned', 'pcm_current'):
+                moves.append(e)
+    chk.require(moves, 'vorbis_synthesis_lapout: no window-moving update found')
+    moves = sorted(moves, key=lambda x: F.ex[x]['loc'])
+    # the states at the returns are kept apart by which updates ran on the path
+    setters = [(f'm{i}', (lambda A_, env, q, e=e: q == e), True) for i, e in enumerate(moves)]
+    A, h = k2.analyse(P, F, setters, field_inv=D.field_inv_for(P.key(F)))
+    rets = k2.ret_value_classes(A)
+    for i, e in enumerate(moves):
+        conds = common.atomic_conditions(F, e)
+        # the returns of the paths on which this update ran
+        ex_envs = [env for (r, fl, v, env) in rets if f'm{i}' in fl]
+        disabled = None
+        for c, pol in conds:
+            try:
+                if ex_envs and all(A.refine(env.copy(), c, pol) is None for env in ex_envs):
+                    disabled = (c, pol)
+                    break
+            except Exception:
+                continue
+        chk.ob('R19.6', F.name, f'window-move-runs-once#{i}', disabled is not None, F.where(e),
+               f'guard {"" if disabled and disabled[1] else "!"}({F.s(disabled[0])}) is false at every return that follows' if disabled else
+               f'{F.s(e)} is controlled by {[("" if p_ else "!") + F.s(c_)[:40] for c_, p_ in conds]}, none of which the function '
+               'falsifies: a second call on the same state moves the window (and the data) again')
+
+
 def run(chk, P):
+    r19_6(chk, P)
+    chk.floor('R19.6', 4)
     r19_5(chk, P)
     chk.floor('R19.5', 2)
     r19_1(chk, P)
